@@ -235,6 +235,13 @@ def task(args):
     return n, v, classes
 
 
+def _dispatch(t):
+    if t[0] == 'threads':
+        from .. import concurrent
+        return concurrent.task3(t[1])
+    return task(t)
+
+
 def run(tier, seed):
     tm = report.Timer()
     col = report.Collector(PROP)
@@ -279,7 +286,10 @@ def run(tier, seed):
     tasks = [('x', items[i:i + 150]) for i in range(0, len(items), 150)]
     for kind in ('as4-off', 'caps-off'):
         tasks += [(kind, singles[i:i + 150]) for i in range(0, len(singles), 150)]
-    res = explore.pmap(task, tasks, chunk=1)
+    # two requests translated by two worker threads at once: every schedule with one preemption (vf/threads.py, vf/concurrent.py)
+    from .. import concurrent
+    tasks += [('threads', a) for a in concurrent.tasks(PROP, tier)]
+    res = explore.pmap(_dispatch, tasks, chunk=1)
     explore.close_pool()
     total = 0
     classes = set()
@@ -289,7 +299,9 @@ def run(tier, seed):
         for k, det in v:
             col.add(k, det, det, task=t)
     n_new, n_known, summary = col.finish('c17-case')
+    classes, interleavings = concurrent.coverage(classes)
     cov = {
+        'thread_interleavings': interleavings,
         'evaluations': total, 'distinct_nontrivial': len(classes),
         'rule': 'from bytes: %d extended communities (18 type codes x field boundary values), %d communities (all 11 well-known values + '
                 'boundary values), %d large communities (each field in {0,1,2^31,2^32-1}); each decoded by the agent, the text posted '
@@ -309,8 +321,12 @@ def replay(path):
     import json
     d = json.load(open(path))
     w = d['witness']
+    if '|threads|' in d['key']:
+        from .. import concurrent
+        return concurrent.cli_replay(PROP, d)
     raws = [bytes.fromhex(x) for x in w['bytes']]
-    r1, r2 = report.twice(lambda: roundtrip(world(), w['attr'], raws, w.get('endpoint', 'json_to_bin')))
+    comma = 'comma-list' in (w.get('kinds') or ())
+    r1, r2 = report.twice(lambda: roundtrip(world(), w['attr'], raws, w.get('endpoint', 'json_to_bin'), comma))
     if repr(r1) != repr(r2):
         print('HARNESS-ERROR: replay is not deterministic')
         return 2
@@ -319,4 +335,4 @@ def replay(path):
     print('detail :', r1[1])
     if r1[0] and d['key'].endswith(r1[0]):
         return 1
-    return report.replay_in_task(d, task)
+    return report.replay_in_task(d, _dispatch)
